@@ -13,6 +13,7 @@ VALUE_TYPES = [BOOL, INT, UINT, DOUBLE, STR, MODE, PTR, SLIST]
 ANNOT = {BOOL: "bool", INT: "int", UINT: "uint", DOUBLE: "double", STR: "QString", MODE: "VfWidget.Mode", PTR: "VfWidget",
          SLIST: "QStringList"}
 MODES = ["ModeA", "ModeB", "ModeC", "ModeD"]
+VARIANT_KINDS = (BOOL, INT, UINT, DOUBLE, STR)   # what the QVariant-typed property `vval` may hold in a state: (kind, value)
 INT_MIN, INT_MAX, UINT_MAX = -2 ** 31, 2 ** 31 - 1, 2 ** 32 - 1
 
 # readable, notifying properties of VfWidget by type (see qv/vftypes.py)
@@ -87,6 +88,7 @@ class Gen:
         self.no_state_methods = False   # methods whose result depends on object state (not observable by bindings)
         self.void_path_hazard = False
         self.has_void_path = False
+        self.doc_casts = False   # `<object>.vval as T` (value stored in a QVariant) and `<expression> as void` statements
 
     # ---- helpers
     def feat(self, f):
@@ -283,6 +285,8 @@ class Gen:
 
     def productions(self, t):
         common = ["atom", "atom", "tern"]
+        if self.doc_casts and self.profile == "dynamic" and t in VARIANT_KINDS and self.vf_objects():
+            common = common + ["varcast"]
         if t == BOOL:
             return common + ["not", "and", "or", "cmp", "cmp", "cmp", "bbit", "isempty", "ptrcmp", "constcmp"]
         if t == INT:
@@ -452,6 +456,11 @@ class Gen:
             pass
         self.feat("cast:%s->%s" % (st, t))
         return N("cast", t, (e,), v=t)
+
+    def p_varcast(self, t, depth):
+        """`<object>.vval as T`: the value stored in the QVariant (defined when it holds a T)."""
+        self.feat("cast:QVariant->%s" % t)
+        return N("varcast", t, (self.obj_expr(depth + 1),), v=t)
 
     def p_method(self, t, depth):
         if self.profile == "constant" or not [o for o in self.env.objects if o.cls == "VfWidget"] or self.no_methods:
@@ -698,6 +707,12 @@ class Gen:
         rng = self.rng
         out = []
         for _ in range(rng.choice((0, 1, 1, 2, 3))):
+            if self.doc_casts and rng.random() < 0.08:
+                # `<expression> as void`: evaluated, result discarded
+                dt = rng.choice((INT, BOOL, STR, DOUBLE, UINT, MODE, SLIST))
+                out.append(N("discard", VOID, (self.expr(dt, 2),)))
+                self.feat("discard-as-void")
+                continue
             r = rng.random()
             if r < 0.55:
                 lt = rng.choice((INT, INT, BOOL, STR, DOUBLE, UINT, MODE, PTR, SLIST))
@@ -1170,7 +1185,7 @@ def prec_of(n):
         return 3
     if n.k == "un":
         return 15
-    if n.k == "cast":
+    if n.k in ("cast", "varcast"):
         return 10
     return 20
 
@@ -1193,8 +1208,8 @@ def pr(n, rng=None, parent=0, right=False, no_extra=False):
     p = prec_of(n)
     if no_extra:
         rng = None
-    need = p < parent or (p == parent and (right or n.k == "tern" or n.k == "cast"))
-    if n.k == "cast":
+    need = p < parent or (p == parent and (right or n.k == "tern" or n.k in ("cast", "varcast")))
+    if n.k in ("cast", "varcast"):
         need = parent > 0
     if n.k == "un" and parent >= 15:
         need = True
@@ -1236,6 +1251,8 @@ def _pr(n, rng):
                                  pr(n.a[2], rng, 3) if n.a[2].k != "tern" else pr(n.a[2], rng, 0))
     if k == "cast":
         return "%s as %s" % (pr(n.a[0], rng, 16), ANNOT[n.v])
+    if k == "varcast":
+        return "%s.vval as %s" % (pr(n.a[0], rng, 20), ANNOT[n.v])
     if k == "minmax":
         return "Math.%s(%s, %s)" % (n.v, pr(n.a[0], rng), pr(n.a[1], rng))
     if k == "tr":
@@ -1259,6 +1276,8 @@ def pr_stmts(stmts, rng, ind):
             out.append("%s%s %s%s = %s;" % (pad, "const" if const else "let", name, (": " + ANNOT[lt]) if annotated else "", pr(s.a[0], rng)))
         elif k == "assign":
             out.append("%s%s = %s;" % (pad, s.v, pr(s.a[0], rng)))
+        elif k == "discard":
+            out.append("%s(%s) as void;" % (pad, pr(s.a[0], rng)))
         elif k == "setelem":
             out.append("%s%s[%s] = %s;" % (pad, s.v, pr(s.a[0], rng), pr(s.a[1], rng)))
         elif k == "exprstmt":
@@ -1421,6 +1440,15 @@ class Interp:
                 raise Undefined("null dereference")
             self.reads.append((o, n.v))
             return self.state[o][n.v]
+        if k == "varcast":
+            o = self.ev(n.a[0])
+            if o is None:
+                raise Undefined("null dereference")
+            self.reads.append((o, "vval"))
+            kind, v = self.state[o]["vval"]
+            if kind != n.v:
+                raise Undefined("the QVariant holds a value of another type (conversion rules are Qt's, not documented here)")
+            return v
         if k == "un":
             v = self.ev(n.a[0])
             if n.v == "!":
@@ -1571,6 +1599,9 @@ class Interp:
             return None
         if k == "assign":
             self.set_local(s.v, self.ev(s.a[0]))
+            return None
+        if k == "discard":
+            self.ev(s.a[0])
             return None
         if k == "setelem":
             v = self.ev(s.a[1])
